@@ -87,7 +87,13 @@ func (l *listener) AcceptWithContext(ctx context.Context) (net.Conn, error) {
 		}
 
 		if errors.Is(err, yamux.ErrSessionShutdown) || errors.Is(err, net.ErrClosed) {
-			return nil, ErrClosed
+			// The session also reports these errors when the server closed
+			// the connection (such as the server node shutting down), so
+			// only stop if the listener itself was closed, otherwise
+			// reconnect.
+			if l.closeCtx.Err() != nil {
+				return nil, ErrClosed
+			}
 		}
 
 		l.logger.Warn("disconnected; reconnecting", zap.Error(err))
